@@ -234,7 +234,7 @@ func c15Mutate(r *rand.Rand, s string) string {
 	nm := 1 + r.Intn(2)
 	for m := 0; m < nm && len(toks) > 0; m++ {
 		i := r.Intn(len(toks))
-		switch r.Intn(8) {
+		switch r.Intn(9) {
 		case 0: // delete
 			toks = append(toks[:i:i], toks[i+1:]...)
 		case 1: // insert
@@ -257,6 +257,16 @@ func c15Mutate(r *rand.Rand, s string) string {
 			if len(ids) > 0 {
 				kws := []string{"in", "not", "and", "or", "is", "empty", "contains", "matches", "any", "all", "as"}
 				toks[ids[r.Intn(len(ids))]] = kws[r.Intn(len(kws))]
+			}
+		case 8: // an identifier becomes the blank name
+			var ids []int
+			for j, t := range toks {
+				if xgen.IsIdent(t) && !xgen.Keywords[t] {
+					ids = append(ids, j)
+				}
+			}
+			if len(ids) > 0 {
+				toks[ids[r.Intn(len(ids))]] = "_"
 			}
 		case 6: // raw control character inside a token
 			t := toks[i]
@@ -383,7 +393,37 @@ func c15LongChain(c *mon.Ctx, k int) {
 
 func c15NChains(tier string) int { return tierN(tier, 5, 6) } // the 270 000-operand or-chain only in the thorough tier
 
+// c15Fixed: hand-picked whole expressions (the C10 corpus and hostile list,
+// binding forms the grammar lists one by one) against the reference recogniser.
+var c15FixedInputs = append(append([]string{
+	`any xs as _, _ { xs is empty }`, `any xs as _ , _ { a == 1 }`, `all xs as _,_ { a == 1 }`, `any xs as _ { a == 1 }`, `any xs as _, v { v == 1 }`, `any xs as k, _ { k == 1 }`, `any xs as k, v { k == v }`, `any xs as k,v{k==v}`,
+	`any xs as _x, _ { _x == 1 }`, `any xs as _, _y { _y == 1 }`, `any xs as __ { __ == 1 }`, `any xs as a, a { a == 1 }`, `any xs as _, _, _ { a == 1 }`, `any xs as , { a == 1 }`, `any xs as _ _ { a == 1 }`,
+}, c10Corpus...), c10Hostile...)
+
+func c15Fixed(c *mon.Ctx) {
+	for _, s := range c15FixedInputs {
+		c15Compare(c, s, "fixed-input")
+	}
+	// an option list that names another entry point and then the default one
+	// again parses the language; one that ends with another rule does not
+	for _, s := range []string{`foo == 1`, `"abc"`, `12`, `foo.bar`, `foo == 1 )`, `a in b and c is empty`} {
+		_, werr, _, _ := parsePublic(s)
+		for _, opts := range [][]grammar.Option{{grammar.Entrypoint("Value"), grammar.Entrypoint("")}, {grammar.Entrypoint("Selector"), grammar.MaxExpressions(0), grammar.Entrypoint("")}, {grammar.Entrypoint(""), grammar.Entrypoint("")}} {
+			_, gerr, gpan, _ := parsePublic(s, opts...)
+			c.Evals(1)
+			if gpan != "" || (gerr == nil) != (werr == nil) {
+				c.Violation("C15 entry-point-differs Entrypoint-reset", "an option list that ends with Entrypoint(\"\") does not parse from the grammar's start rule", map[string]any{"input": s, "plain_error": fmt.Sprint(werr), "error_with_options": fmt.Sprint(gerr) + gpan})
+				return
+			}
+		}
+	}
+	c.Count("fixed_inputs_compared")
+}
+
 func c15Run(c *mon.Ctx, idx int) {
+	if idx%20011 == 0 {
+		c15Fixed(c)
+	}
 	if plan := c15GetPlan(c.Tier); idx >= plan.nSeq+plan.nRnd {
 		c15LongChain(c, idx-plan.nSeq-plan.nRnd)
 		return
@@ -439,7 +479,7 @@ func c15Run(c *mon.Ctx, idx int) {
 
 func init() {
 	req := func(tier string) []string {
-		l := []string{"accepted", "rejected", "option_bearing_calls_interleaved", "buffer_independence_checked", "trees_compared", "token_sequences", "derivations", "mutants", "long_flat_chains", "entry_points_compared"}
+		l := []string{"accepted", "rejected", "option_bearing_calls_interleaved", "buffer_independence_checked", "trees_compared", "token_sequences", "derivations", "mutants", "long_flat_chains", "entry_points_compared", "fixed_inputs_compared"}
 		for _, a := range refparse.AllAlts {
 			l = append(l, "alt:"+a)
 		}
